@@ -545,3 +545,43 @@ unsafe fn clear_arrays<K, V>(handles: *mut u64, keys: *mut K, values: *mut V, co
         }
     }
 }
+
+/// Raw-slot access for the out-of-tree verification harnesses (`verif-hooks` feature only).
+#[cfg(feature = "verif-hooks")]
+impl<K, V, A: Allocator> CaoHashMap<K, V, A> {
+    /// Writes `(hash, key, value)` into bucket `i`, which must be empty, and counts it.
+    ///
+    /// # Safety
+    /// `i < capacity`, the bucket is empty, `hash != 0`
+    pub unsafe fn verif_set_slot(&mut self, i: usize, hash: u64, key: K, value: V) {
+        self.hashes_mut()[i] = hash;
+        std::ptr::write(self.keys.as_ptr().add(i), key);
+        std::ptr::write(self.values.as_ptr().add(i), value);
+        self.count += 1;
+    }
+
+    /// Raw view of bucket `i`: `None` if empty
+    pub fn verif_slot(&self, i: usize) -> Option<(u64, &K, &V)> {
+        let h = self.hashes()[i];
+        if h == 0 {
+            None
+        } else {
+            unsafe { Some((h, &*self.keys.as_ptr().add(i), &*self.values.as_ptr().add(i))) }
+        }
+    }
+
+    /// The bucket the map's own probe sequence ends at for `(hash, key)`
+    pub fn verif_find_ind<Q>(&self, hash: u64, key: &Q) -> usize
+    where
+        K: Borrow<Q>,
+        Q: Eq + ?Sized,
+    {
+        self.find_ind(hash, key)
+    }
+}
+
+/// The map's hash function (`verif-hooks` feature only)
+#[cfg(feature = "verif-hooks")]
+pub fn verif_hash<T: ?Sized + Hash>(t: &T) -> u64 {
+    hash(t)
+}
